@@ -40,7 +40,7 @@ Good ==
   \cup { St("holdlit:" \o v, SExpr(Asg("o", Obj(<<"p", "n">>, <<Id(v), Num(0)>>)))) : v \in Vars }      \* held by a property (object literal)
   \cup { St("holdset:" \o v, SExpr(PAsg(Id("o"), "p", Id(v)))) : v \in Vars }                          \* held by a property (store)
   \cup { St("writeprop", SExpr(IAsg(Prop(Id("o"), "p"), Num(0), Fresh))), St("fromprop:x", SExpr(Asg("x", Prop(Id("o"), "p")))) }
-BadIdx == { <<"len", LenOf("x")>>, <<"neg", Un("-", Num(1))>>, <<"frac", Lit(D("0.5"))>>, <<"str", Lit(S("k"))>>, <<"nil", Lit(VNil)>>,
+BadIdx == { <<"len", LenOf("x")>>, <<"neg", Un("-", Num(1))>>, <<"frac", Lit(D("0.5"))>>, <<"nearzero", Lit(D("0.0000000001"))>>, <<"nearone", Lit(D("1.0000000001"))>>, <<"str", Lit(S("k"))>>, <<"nil", Lit(VNil)>>,
             <<"bool", Lit(VBool(TRUE))>>, <<"big", Lit(D("4294967296"))>>, <<"arr", Arr(<<Num(0)>>)>>,
             <<"2p63", Lit(D("9223372036854775808"))>>, <<"2p64", Lit(D("18446744073709551616"))>>, <<"inf", Bin("*", Lit(D("1e308")), Num(10))>>,
             <<"nan", Bin("-", Bin("*", Lit(D("1e308")), Num(10)), Bin("*", Lit(D("1e308")), Num(10)))>>, <<"-2p63", Un("-", Lit(D("9223372036854775808")))>> }
